@@ -87,7 +87,7 @@ pub fn check_values(a: u64, b: u64, c: u64, d: u64, deep: bool, st: &mut Stats) 
 fn boundary_values() -> Vec<u64> {
     let m = max_int();
     let mut v = vec![0u64, 1, 2, 3, 7, 9, 10, 11, 99, 100, m - 1, m];
-    for k in [7u32, 8, 15, 16, 31, 32] {
+    for k in 2u32..=49 {
         v.push((1u64 << k) - 1);
         v.push(1u64 << k);
         v.push((1u64 << k) + 1);
@@ -157,18 +157,18 @@ pub fn run(cfg: &RunCfg) -> PropRun {
         "boundary-cross",
         |shard, nsh| (0..n).filter(move |i| i % nsh == shard),
         move |i, st| {
-            for &b in bvr {
-                for &c in bvr {
-                    for &d in bvr {
-                        check_values(bvr[*i], b, c, d, true, st)?;
-                    }
+            for (jb, &b) in bvr.iter().enumerate() {
+                for (jc, &c) in bvr.iter().enumerate() {
+                    // all triples; the fourth component walks through the set in step with them
+                    let d = bvr[(*i * 31 + jb * 7 + jc) % n];
+                    check_values(bvr[*i], b, c, d, true, st)?;
                 }
             }
             Ok(())
         },
     );
     run.absorb(out);
-    run.stats.exhaustive_subspaces.push(json!({"name": "boundary set ^4", "values": n}));
+    run.stats.exhaustive_subspaces.push(json!({"name": "boundary set (0,1,2,..,2^k-1,2^k,2^k+1 for k=2..49,MAX-1,MAX) ^3, fourth component cycling through the set", "values": n}));
 
     // (c) random
     let total = cfg.pick(200_000, 5_000_000);
@@ -182,6 +182,7 @@ pub fn run(cfg: &RunCfg) -> PropRun {
             let one = prop_oneof![
                 2 => select(boundary_values()),
                 2 => 0..=m,
+                2 => crate::gen::version::log_uniform(),
                 1 => 0..=u32::MAX as u64,
                 1 => 0..=u16::MAX as u64,
                 1 => 0..=255u64,
@@ -229,11 +230,10 @@ pub fn replay(campaign: &str, case: &Value) -> Result<(), Failure> {
         "boundary-cross" => {
             let i: usize = serde_json::from_value(case.clone()).map_err(bad)?;
             let bv = boundary_values();
-            for &b in &bv {
-                for &c in &bv {
-                    for &d in &bv {
-                        check_values(bv[i], b, c, d, true, &mut st)?;
-                    }
+            let n = bv.len();
+            for (jb, &b) in bv.iter().enumerate() {
+                for (jc, &c) in bv.iter().enumerate() {
+                    check_values(bv[i], b, c, bv[(i * 31 + jb * 7 + jc) % n], true, &mut st)?;
                 }
             }
             Ok(())
